@@ -207,6 +207,13 @@ def main(argv=None):
     if hasattr(mod, "warmup"):
         mod.warmup()
     warm_s = time.time() - t_w
+    supplement = None
+    if hasattr(mod, "uncontrolled_supplement") and not a.no_selftest:
+        try:
+            supplement = mod.uncontrolled_supplement()
+        except Exception as e:  # noqa: BLE001
+            supplement = {"error": f"{type(e).__name__}: {e}"}
+        print("  uncontrolled supplement (runtime observation, not in any digest):", supplement)
     print(f"  warm-up (import + JIT) {warm_s:.1f}s; exploring {n_runs} runs on {a.workers} workers")
     sys.stdout.flush()
 
@@ -354,6 +361,7 @@ def main(argv=None):
         "runs_skipped_by_wall_cap": skipped,
         "determinism_selftest": selftest,
         "components": getattr(mod, "COMPONENTS", {}),
+        "uncontrolled_supplement": supplement,
         "tolerance_margin": {"max_observed_over_bound": max_ratio, **extra_max},
         "known_findings_seen": {k: len(v) for k, v in known_hits.items()},
         "pydrex_src": REPO_SRC, "pydrex_src_hash": source_hash(),
